@@ -622,6 +622,26 @@ def location_addressing(F):
                             if scr_ is not None and scr_ is not e and mentions_loc(scr_, depth + 1):
                                 return True
                     return False
+                def reads_cursor(e, depth=0):
+                    if depth > 3 or not isinstance(e, dict):
+                        return None
+                    for y in walk(e):
+                        if y.get("k") == "Field" and (place_path(y) or "").startswith("self.") and y["name"] in ("instr_idx", "curr_idx", "curr_instr", "curr_mod", "curr_func"):
+                            return place_path(y)
+                    for y in walk(e):
+                        if y.get("k") == "Path" and y.get("res", {}).get("r") == "local":
+                            _p, scr_, _k = binding_site(fn["body"], y["res"]["hid"])
+                            if scr_ is not None and scr_ is not e:
+                                c_ = reads_cursor(scr_, depth + 1)
+                                if c_:
+                                    return c_
+                    return None
+                cur_ = reads_cursor(idx)
+                if cur_:
+                    r.ob(False, {"fn": fn["path"], "addresses": want, "by": cur_})
+                    r.violate("%s | %s via cursor" % (fn["path"], want), F.loc(fn, x),
+                              "%s takes a location but lets the cursor `%s` decide the %s it touches: an edit aimed at another place lands where the cursor is" % (fn["name"], cur_, want))
+                    continue
                 if mentions_loc(idx):
                     r.undecided("%s: the %s index derives from `loc` through a helper or a tuple; which component it is was not decided" % (fn["path"], want))
                     continue
